@@ -725,6 +725,16 @@ fn corpus() -> Vec<Case> {
         m("schema { query: Query subscription: Nope }\ntype Query { a: Int }\n", "unknown-types", "root-operation-type"),
         m("directive @r(x: In) on INPUT_FIELD_DEFINITION\ninput In { n: In2 }\ninput In2 { a: Int @r }\ntype Query { a: Int }\n", "directive-recursion", "through-nested-input-field"),
         m("directive @r(x: Int @r) on ARGUMENT_DEFINITION\ntype Query { a: Int }\n", "directive-recursion", "self"),
+        // fix 2e4a65e: `directives_in_type` follows the types of input-object fields transitively, one `seen_types` set per
+        // argument (two arguments of one type: reported twice; a type reached twice within one argument: once)
+        m("directive @r(x: In, y: [In!]) on INPUT_FIELD_DEFINITION\ninput In { n: In2 }\ninput In2 { a: Int @r }\ntype Query { a: Int }\n", "directive-recursion", "through-nested-input-field"),
+        m("directive @r(x: In) on INPUT_FIELD_DEFINITION\ninput In { a: A b: B }\ninput A { d: D }\ninput B { d: D }\ninput D { v: Int @r }\ntype Query { a: Int }\n", "directive-recursion", "through-nested-input-field"),
+        m("directive @r(x: In) on INPUT_OBJECT\ninput In { n: In2 }\ninput In2 @r { back: In v: Int }\ntype Query { a: Int }\n", "directive-recursion", "through-nested-input-type"),
+        m("directive @r(x: In) on ENUM_VALUE\ninput In { n: [In2!] }\ninput In2 { e: E self: In2 }\nenum E { A @r }\ntype Query { a: Int }\n", "directive-recursion", "through-nested-enum-value"),
+        m("directive @p(x: PIn) on INPUT_FIELD_DEFINITION | ARGUMENT_DEFINITION\ndirective @q(y: Int @p) on INPUT_FIELD_DEFINITION | ARGUMENT_DEFINITION\ninput PIn { n: PIn2 }\ninput PIn2 { n: PIn3 }\ninput PIn3 { v: Int @q }\ntype Query { a: Int }\n", "directive-recursion", "cycle:only-through-nested-input-object"),
+        v("directive @l on INPUT_FIELD_DEFINITION\ndirective @r(x: In, y: In) on OBJECT\ninput In { a: A b: A self: In }\ninput A { v: Int @l }\ntype Query @r { a: Int }\n"),
+        Case { files: vec!["directive @r(x: Obj) on ARGUMENT_DEFINITION\ntype Obj { f(a: Int @r): Int }\ntype Query { a: Int }\n".into()], mode: "junk".into(), rule: None, class: None, features: vec!["corpus".into()] },
+        Case { files: vec!["directive @r(x: In) on FIELD_DEFINITION\ninput In { o: Obj }\ntype Obj { f: Int @r }\ntype Query { a: Int }\n".into()], mode: "junk".into(), rule: None, class: None, features: vec!["corpus".into()] },
         m("input In { k: String! v: Int }\ndirective @ar(i: In) on OBJECT\ntype Query @ar(i: {k: \"a\", zz: 1}) { a: Int }\n", "directive-args", "input-object-unknown-field(optional-field-omitted)"),
         m("directive @d(a: Int) on OBJECT\ntype Query @d(a: 1, a: \"x\") { f: Int }\n", "directive-args", "duplicate-argument-second-ill-typed"),
         v("interface I { f: Int }\ntype Query implements I { f(x: Int! = 1): Int }\n"),
